@@ -129,4 +129,9 @@ def genesisDepositsOk (nd : Nat) (tunnels : List (Nat × List Nat)) (deps : List
   tunnels.all fun t => (List.range nd).all fun k =>
     t.2.getD k 0 == (deps.filter (·.1 == t.1)).foldl (fun acc d => acc + d.2.2.getD k 0) 0
 
+/-- the tunnel clauses of `ValidateGenesis`: as many tunnels as the counter says, every id within the counter (the next
+    created tunnel takes id counter + 1), no id twice -/
+def genesisTunnelsOk (count : Nat) (ids : List Nat) : Bool :=
+  ids.length == count && ids.all (fun i => decide (i ≤ count)) && decide ids.Nodup
+
 end BandVerif.TunnelDeposit
